@@ -80,6 +80,25 @@ func (header *Header) Validate(ctx context.Context, opts ...ValidationOption) er
 		if err := schema.Validate(ctx); err != nil {
 			return fmt.Errorf("header schema is invalid: %w", err)
 		}
+		if header.Example != nil && header.Examples != nil {
+			return errors.New("header example and examples are mutually exclusive")
+		}
+		if vo := getValidationOptions(ctx); !vo.examplesValidationDisabled {
+			if example := header.Example; example != nil {
+				if err := validateExampleValue(ctx, example, schema.Value); err != nil {
+					return fmt.Errorf("invalid example: %w", err)
+				}
+			}
+			for _, name := range componentNames(header.Examples) {
+				example := header.Examples[name]
+				if err := example.Validate(ctx); err != nil {
+					return fmt.Errorf("%s: %w", name, err)
+				}
+				if err := validateExampleValue(ctx, example.Value.Value, schema.Value); err != nil {
+					return fmt.Errorf("%s: %w", name, err)
+				}
+			}
+		}
 	}
 
 	if content := header.Content; content != nil {
